@@ -15,6 +15,7 @@ CONSTANTS Readers,       \* follower read requests (strings)
           MaxCommits,    \* writes the leader acknowledges during the behaviour
           SingleFlight,  \* TRUE: concurrent fetches are shared (the code); FALSE: every read fetches itself
           SetRaises,     \* FALSE: SetCurrentRevision is a plain store (the code); TRUE: it only raises
+          Promotes,      \* TRUE: the follower may win the election while reads are under way
           GenHist
 
 VARIABLES lrev,      \* the leader's committed revision
@@ -24,19 +25,20 @@ VARIABLES lrev,      \* the leader's committed revision
           got,       \* [Readers -> fetched revision]
           served,    \* [Readers -> revision the read was served at]
           flight,    \* the in-flight fetch: [open, sampled (0 = the leader has not answered yet), members]
+          leading,   \* the follower has won the election meanwhile: frev is now the revision it commits its own writes at
           commits, hist
-pvars == <<lrev, frev, rpc, must, got, served, flight, commits, hist>>
+pvars == <<lrev, frev, rpc, must, got, served, flight, leading, commits, hist>>
 
 NoFlight == [open |-> FALSE, sampled |-> 0, members |-> {}]
 PInit == /\ lrev = 5 /\ frev = 0 /\ rpc = [r \in Readers |-> "idle"] /\ must = [r \in Readers |-> 0]
-         /\ got = [r \in Readers |-> 0] /\ served = [r \in Readers |-> 0] /\ flight = NoFlight /\ commits = 0 /\ hist = << >>
+         /\ got = [r \in Readers |-> 0] /\ served = [r \in Readers |-> 0] /\ flight = NoFlight /\ leading = FALSE /\ commits = 0 /\ hist = << >>
 
 H(o) == hist' = IF GenHist THEN Append(hist, o) ELSE hist
 
 \* the leader acknowledges a write
 LeaderCommit == /\ commits < MaxCommits /\ commits' = commits + 1 /\ lrev' = lrev + 1
                 /\ H([a |-> "LeaderCommit", r |-> "", v |-> lrev + 1])
-                /\ UNCHANGED <<frev, rpc, must, got, served, flight>>
+                /\ UNCHANGED <<frev, rpc, must, got, served, flight, leading>>
 \* a read begins: it joins the fetch in flight, or starts one
 Begin(r) == /\ rpc[r] = "idle"
             /\ must' = [must EXCEPT ![r] = lrev]
@@ -45,38 +47,51 @@ Begin(r) == /\ rpc[r] = "idle"
                          ELSE IF ~flight.open THEN [open |-> TRUE, sampled |-> 0, members |-> {r}]
                          ELSE flight
             /\ H([a |-> "Begin", r |-> r, v |-> lrev])
-            /\ UNCHANGED <<lrev, frev, got, served, commits>>
+            /\ UNCHANGED <<lrev, frev, got, served, commits, leading>>
 \* the leader answers the status request: the revision is sampled now
 LeaderAnswer == /\ flight.open /\ flight.sampled = 0
                 /\ flight' = [flight EXCEPT !.sampled = lrev]
                 /\ H([a |-> "LeaderAnswer", r |-> "", v |-> lrev])
-                /\ UNCHANGED <<lrev, frev, rpc, must, got, served, commits>>
+                /\ UNCHANGED <<lrev, frev, rpc, must, got, served, commits, leading>>
 \* the answer arrives: every member of the flight gets the sampled revision
 Deliver == /\ flight.open /\ flight.sampled # 0
            /\ got' = [r \in Readers |-> IF r \in flight.members THEN flight.sampled ELSE got[r]]
            /\ rpc' = [r \in Readers |-> IF r \in flight.members THEN "got" ELSE rpc[r]]
            /\ flight' = NoFlight
            /\ H([a |-> "Deliver", r |-> "", v |-> flight.sampled])
-           /\ UNCHANGED <<lrev, frev, must, served, commits>>
+           /\ UNCHANGED <<lrev, frev, must, served, commits, leading>>
 \* the read stores the fetched revision as the local read revision
 Set(r) == /\ rpc[r] = "got"
           /\ frev' = IF SetRaises /\ got[r] < frev THEN frev ELSE got[r]
           /\ rpc' = [rpc EXCEPT ![r] = "set"]
           /\ H([a |-> "Set", r |-> r, v |-> got[r]])
-          /\ UNCHANGED <<lrev, must, got, served, flight, commits>>
+          /\ UNCHANGED <<lrev, must, got, served, flight, commits, leading>>
 \* the read is served locally at the local read revision
 Read(r) == /\ rpc[r] = "set"
            /\ served' = [served EXCEPT ![r] = frev]
            /\ rpc' = [rpc EXCEPT ![r] = "done"]
            /\ H([a |-> "Read", r |-> r, v |-> frev])
-           /\ UNCHANGED <<lrev, frev, must, got, flight, commits>>
+           /\ UNCHANGED <<lrev, frev, must, got, flight, commits, leading>>
 
-PNext == LeaderCommit \/ LeaderAnswer \/ Deliver \/ \E r \in Readers : Begin(r) \/ Set(r) \/ Read(r)
+\* the follower wins the election while reads are still under way (CONSTANT Promotes): the election callback sets its revision to
+\* the engine's timestamp -- at least everything the old leader committed --, and from then on its own writes commit at frev
+Promote == /\ Promotes /\ ~leading
+           /\ leading' = TRUE /\ frev' = IF lrev > frev THEN lrev ELSE frev
+           /\ H([a |-> "Promote", r |-> "", v |-> lrev])
+           /\ UNCHANGED <<lrev, rpc, must, got, served, flight, commits>>
+OwnCommit == /\ leading /\ commits < MaxCommits /\ commits' = commits + 1
+             /\ frev' = frev + 1
+             /\ H([a |-> "OwnCommit", r |-> "", v |-> frev + 1])
+             /\ UNCHANGED <<lrev, rpc, must, got, served, flight, leading>>
+
+PNext == LeaderCommit \/ LeaderAnswer \/ Deliver \/ Promote \/ OwnCommit \/ \E r \in Readers : Begin(r) \/ Set(r) \/ Read(r)
 PSpec == PInit /\ [][PNext]_pvars
 
+\* a node that leads never moves its committed revision back: the sequencer takes the next write result from the slot after it
+LeaderRevisionMonotone == [][leading => frev' >= frev]_pvars
 \* the read reflects every write the leader had committed before the read began
 ReadNotStale == \A r \in Readers : rpc[r] = "done" => served[r] >= must[r]
 PDone == \A r \in Readers : rpc[r] = "done"
 PDump == PDone => PrintT(<<"BEHAVIOUR", ToJson([steps |-> hist, stale |-> {r \in Readers : served[r] < must[r]}])>>)
-PView == <<lrev, frev, rpc, must, got, served, flight, commits>>
+PView == <<lrev, frev, rpc, must, got, served, flight, leading, commits>>
 =============================================================================
